@@ -20,6 +20,9 @@ class FrameFragmentCache:
                 self._frames_by_stream_id.pop(frame.stream_id)
             return frame
 
+    def has_partial_frame(self, stream_id: int) -> bool:
+        return stream_id in self._frames_by_stream_id
+
     def remove(self, stream_id: int):
         self._frames_by_stream_id.pop(stream_id, None)
 
